@@ -188,7 +188,30 @@ def guards_at(fn: ast.FunctionDef, target: ast.AST) -> list[Guard]:
         raise AnalysisError(f"node {norm(target)[:60]} not found in {fn.name}")
     st, gs = best
     header = st.test if isinstance(st, (ast.If, ast.While)) else st
-    return gs + expr_guards(header, target)
+    return expand_guards(gs + expr_guards(header, target))
+
+
+def expand_guards(gs: list[Guard]) -> list[Guard]:
+    """A true conjunction makes each conjunct true, a false disjunction each disjunct false,
+    `not x` flips polarity: add the atomic consequences (the compound guard is kept too)."""
+    out: list[Guard] = []
+    todo = list(gs)
+    seen = set()
+    while todo:
+        g = todo.pop(0)
+        key = (id(g.test), g.positive)
+        if key in seen:
+            continue
+        seen.add(key)
+        out.append(g)
+        t = g.test
+        if isinstance(t, ast.UnaryOp) and isinstance(t.op, ast.Not):
+            todo.append(Guard(t.operand, not g.positive))
+        elif isinstance(t, ast.BoolOp) and isinstance(t.op, ast.And) and g.positive:
+            todo += [Guard(v, True) for v in t.values]
+        elif isinstance(t, ast.BoolOp) and isinstance(t.op, ast.Or) and not g.positive:
+            todo += [Guard(v, False) for v in t.values]
+    return out
 
 
 # ---------------------------------------------------------------------------------------------
